@@ -138,12 +138,12 @@ CHECKS["C12"] = {"text": "The model's update_pert (forward pass, critical path l
     "note": COMMON_NOTE,
     "technique": "Coq proof (generic frontier/worklist invariant with rank-based termination, instantiated for the forward and backward pass; Q arithmetic by lra) + model/implementation correspondence of PERT fields + independent CPM oracle"}
 CHECKS["C15"] = {"text": "Proved for every configuration, options, incoming state, pause step k and final max_time m >= k: the run resumed from the state returned by the paused run (initialize_state_info = "
-    "initialize_log_info = False, which is proved to leave the state untouched) returns exactly the state of the uninterrupted run -- all logs, costs, time, status and live state -- provided __update is idempotent at the "
-    "`updated` snapshots of the run (the resumed run calls it once more). The proof shows that no phase reads project.status (35 commutation lemmas over every function of the step), that the loop is deterministic, and "
+    "initialize_log_info = False, which is proved to leave the state untouched) returns exactly the state of the uninterrupted run -- all logs, costs, time, status and live state -- provided the PERT refresh is idempotent at the "
+    "`updated` snapshots of the run (the resumed run calls __update once more; the rest of __update is PROVED idempotent there: finishing pass, component states, removal of finished assemblies, ready check). The proof shows that no phase reads project.status (35 commutation lemmas over every function of the step), that the loop is deterministic, and "
     "splits the uninterrupted trace at the pause point. The side condition is checked on the implementation at every step of every explored run (second __update call from the observer); the model is tied to the code by "
     "the full-state correspondence on a paused+resumed operation sequence. Pause at EVERY k in 0..makespan and the route through a JSON file are searched by the oracle.",
-    "note": COMMON_NOTE + " PARTIAL: idempotence of __update at the pause point is a hypothesis of the theorem (validated per run, not proved: the PERT refresh re-reads stale earliest-finish values when a WORKING "
-    "task has negative remaining work, so a general proof needs a side condition on the state); the JSON route relies on C16.",
+    "note": COMMON_NOTE + " PARTIAL: idempotence of the PERT refresh at the pause point is a hypothesis of the theorem (validated per run, not proved: the forward pass can re-read a stale earliest-finish value when a WORKING "
+    "task has negative remaining work, so a general proof needs a side condition on the state); uses functional_extensionality_dep; the JSON route relies on C16.",
     "technique": "Coq proof (status-independence of every phase, determinism and trace splitting) + per-run validation of the idempotence side condition + model/implementation correspondence on pause+resume + oracle pausing at every step, in memory and through JSON"}
 CHECKS["C13"] = {"text": "Proved for every product that is a forest (flat and nested; no component reached twice), every configuration, options and run: (a) in every snapshot a workplace lists a component exactly "
     "when the component reports being placed there and no component is listed twice (so at most one workplace); (b),(c),(d) a component is put somewhere only if no component of its assembly has moved in this step, has a "
